@@ -16,6 +16,7 @@ import re
 
 import c04_crash as C
 import c04_lib as L
+import c04_race as RC
 import c04_run as R
 import c04_tamper as T
 import vlib
@@ -35,6 +36,9 @@ OPTION_SETS = [
     ("small-files", ["--sst-target-file-size", "400", "--sst-minimum-file-size", "200", "--sst-target-block-size", "128"]),
     ("few-files-per-compaction", ["--sst-target-file-size", "300", "--sst-minimum-file-size", "100", "--sst-target-block-size", "96", "--max-compaction-files", "4"]),
     ("eager-rollover", ["--sst-target-file-size", "200", "--sst-minimum-file-size", "80", "--sst-target-block-size", "64", "--mani-log-rollover-ratio", "1"]),
+    # the manifest rolls over on open only: long live fragments, in which a name removed by an old
+    # fragment is re-created and removed again while the verifier is still behind
+    ("rollover-on-open-only", ["--sst-target-file-size", "120", "--sst-minimum-file-size", "50", "--sst-target-block-size", "64", "--mani-log-rollover-ratio", "1000000"]),
 ]
 BASE_OPTS = ["--memtable-size-bytes", "100000000", "--l0-write-stall-threshold-files", "100000",
              "--l0-write-stall-threshold-bytes", "100000000000"]
@@ -69,11 +73,63 @@ def gen_history(rng, n_ops, universe):
     return ops
 
 
+def gen_recreate(rng, universe):
+    """directed: a name (an external sst X, ingested through LsmTree::ingest) is collected, and after
+    two reopens ingested and collected AGAIN while its second life is recorded in the live manifest
+    only; verifier passes in between and after two more reopens (the trash entry of the second
+    removal must survive the pass that judges the first).  Noise around every stage."""
+    ops = []
+    k = rng.choice(universe[1:])
+    xs = [(k, rng.choice([1, 2]), rng.bytes(rng.choice([0, 1, 5])))]
+    if rng.chance(1, 3):
+        xs.append((k + b"x", 1, rng.bytes(2)))
+
+    def noise(n):
+        for _ in range(n):
+            r = rng.below(10)
+            if r < 6:
+                kk = k if rng.chance(1, 2) else rng.choice(universe)
+                ops.append(("w", [(kk, None if rng.chance(1, 5) else rng.bytes(rng.choice([0, 1, 8])))]))
+            elif r < 8:
+                ops.append(("flush",))
+            else:
+                ops.append(("compact", rng.choice([2, 40])))
+
+    def life():
+        ops.append(("ingest", list(xs)))
+        noise(rng.range(0, 4))
+        ops.append(("w", [(e[0], rng.bytes(3)) for e in xs]))      # newer versions: X becomes garbage
+        ops.append(("flush",))
+        ops.append(("compact", 80))
+        noise(rng.range(0, 3))
+        ops.append(("flush",))
+        ops.append(("compact", 80))
+
+    noise(rng.range(0, 5))
+    life()
+    if rng.chance(1, 3):
+        ops.append(("verify",))
+    ops.append(("reopen",))
+    noise(rng.range(0, 3))
+    ops.append(("reopen",))
+    life()
+    ops.append(("verify",))
+    noise(rng.range(0, 3))
+    ops.append(("reopen",))
+    ops.append(("reopen",))
+    ops.append(("verify",))
+    ops.append(("reopen",))
+    ops.append(("verify",))
+    return ops
+
+
 def ops_to_json(ops):
     out = []
     for op in ops:
         if op[0] == "w":
             out.append(["w", [[k.hex(), None if v is None else v.hex()] for k, v in op[1]]])
+        elif op[0] == "ingest":
+            out.append(["ingest", [[k.hex(), ts, None if v is None else v.hex()] for k, ts, v in op[1]]])
         else:
             out.append(list(op))
     return out
@@ -84,6 +140,8 @@ def ops_from_json(js):
     for op in js:
         if op[0] == "w":
             out.append(("w", [(bytes.fromhex(k), None if v is None else bytes.fromhex(v)) for k, v in op[1]]))
+        elif op[0] == "ingest":
+            out.append(("ingest", [(bytes.fromhex(k), ts, None if v is None else bytes.fromhex(v)) for k, ts, v in op[1]]))
         else:
             out.append(tuple(op))
     return out
@@ -108,6 +166,8 @@ def run_history(c04_exe, mx_exe, optname, versions, ops, tag, tamper_budget, tam
                 run.write(op[1])
             elif op[0] == "flush":
                 run.flush()
+            elif op[0] == "ingest":
+                run.ingest(op[1])
             elif op[0] == "compact":
                 for _ in range(op[1]):
                     if not run.compact():
@@ -249,7 +309,7 @@ def run(chk):
     tool.close()
 
     # ---- phase B: histories
-    n_hist = 72 if quick else 480
+    n_hist = 60 if quick else 480
     jobs, names = [], []
     for fn, c in corpus:
         if "history" in c:
@@ -260,7 +320,14 @@ def run(chk):
         optname = OPTION_SETS[i % len(OPTION_SETS)][0]
         versions = rng.choice([1, 1, 2, 3])
         universe = UNIVERSE[:rng.choice([6, 10, 16])]
-        ops = gen_history(rng.fork(), rng.choice([60, 120, 240]), universe)
+        if i % 5 == 4:
+            # directed re-creation histories; the manifest rolls over on open only, so that the second
+            # life of the name is recorded in the live manifest when the verifier judges the first
+            optname = "rollover-on-open-only"
+            versions = 1      # the first life of the name has to end in a collection
+            ops = gen_recreate(rng.fork(), universe)
+        else:
+            ops = gen_history(rng.fork(), rng.choice([60, 120, 240]), universe)
         exhaustive = (not quick) and i % 40 == 0
         tseed = rng.u64()
         jobs.append((c04_exe, mx, optname, versions, ops, "h%d" % i, 12 if quick else 24, tseed, exhaustive, num_levels))
@@ -281,6 +348,28 @@ def run(chk):
             if p["kind"] == "machinery":
                 raise RuntimeError("check machinery failed: %s" % json.dumps(p)[:500])
             crash_bad.append({"name": "crash", "options": job[1], "problem": p})
+
+    # ---- phase D: the concurrent stage (real compaction threads racing with ingesting threads)
+    race_stats = collections.Counter()
+    race_bad = []
+    race_rounds = []
+    # (ingest threads, ssts per thread, keys per sst, compaction threads): many ingesting threads keep
+    # the commit lock busy when the compaction thread reaches its commit; two compaction threads
+    # race with each other as well
+    shapes_q = [(8, 30, 24, 1), (3, 40, 16, 2)]
+    shapes_t = shapes_q + [(4, 60, 24, 2), (2, 100, 8, 1), (4, 30, 48, 1), (3, 80, 4, 2), (4, 60, 24, 1), (6, 30, 16, 2),
+                           (4, 60, 12, 2), (8, 40, 8, 1), (4, 80, 16, 1), (4, 40, 16, 3)]
+    for ri, (nt, per, keys, nc) in enumerate(shapes_q if quick else shapes_t):
+        params = {"ingest_threads": nt, "ssts_per_thread": per, "keys_per_sst": keys, "compaction_threads": nc, "seed": rng.u64() % (1 << 62)}
+        ropts = [] if ri % 3 != 2 else OPTION_SETS[ri % len(OPTION_SETS)][1]
+        pr, st, lines = RC.one_round(c04_exe, mx, params, ropts, "race%d" % ri)
+        race_rounds.append(dict(params, options=ropts, **{k: st.get(k) for k in ("transactions", "compactions", "fragments")}))
+        race_stats.update(st)
+        for p in pr:
+            if p["kind"] == "machinery":
+                raise RuntimeError("check machinery failed: %s" % json.dumps(p)[:500])
+        if pr:
+            race_bad.append({"name": "race", "params": params, "options": ropts, "problems": pr[:10], "n_problems": len(pr), "race_lines": lines})
 
     steps, tstats = collections.Counter(), collections.Counter()
     prop_bad, corr_bad, mach_bad, outside = [], [], [], 0
@@ -308,14 +397,14 @@ def run(chk):
             shapes.add(json.dumps(ops_to_json(ops))[:3000])
 
     chk.coverage.update({
-        "evaluations": len(results) + n_log + tstats.get("cases", 0) + n_crash,
-        "distinct_nontrivial": len(shapes) + tstats.get("cases", 0) + cstats.get("killed", 0),
-        "rule": "histories: random single-stepped sessions of the real KeyValueStore (puts/deletes/batches over an adversarial key universe, flush, bursts of real selector compactions, reopen, verifier passes on the live directory) under 4 option sets (tiny files, eager manifest rollover, few files per compaction) x GC policy versions=1..3, every manifest transaction compared with the model and with the Python oracle; non-trivial = >=2 flushes and >=1 merging compaction or GC; tamper cases: one digit of one digest / one entry of one output (rebuilt by the real builder) / in-place edits / malformed strings on a copy of the real directory, counted individually; log cases: WriteBatches with refused puts; crash cases: a real session killed by SIGKILL on entering the N-th write/fdatasync/fsync/rename/linkat/unlink (strace injection), the directory inspected before and after the next open (oracle only), counted when the kill happened",
+        "evaluations": len(results) + n_log + tstats.get("cases", 0) + n_crash + len(race_rounds),
+        "distinct_nontrivial": len(shapes) + tstats.get("cases", 0) + cstats.get("killed", 0) + len(race_rounds),
+        "rule": "histories: random single-stepped sessions of the real KeyValueStore (puts/deletes/batches over an adversarial key universe, flush, bursts of real selector compactions, reopen, verifier passes on the live directory) under 4 option sets (tiny files, eager manifest rollover, few files per compaction) x GC policy versions=1..3, every manifest transaction compared with the model and with the Python oracle; non-trivial = >=2 flushes and >=1 merging compaction or GC; tamper cases: one digit of one digest / one entry of one output (rebuilt by the real builder) / in-place edits / malformed strings on a copy of the real directory, counted individually; log cases: WriteBatches with refused puts; crash cases: a real session killed by SIGKILL on entering the N-th write/fdatasync/fsync/rename/linkat/unlink (strace injection), the directory inspected before and after the next open (oracle only), counted when the kill happened; concurrent rounds: real compaction_thread()s racing with 2-4 threads that ingest overlapping external ssts (the commit of a compaction is not atomic in the real store), the recorded manifest history audited by the oracle and by the extracted verifier (every GC replayed)",
         "samples": [ops_to_json(names[-1][3])[:10]],
-        "input_distribution": {"store_steps": dict(steps), "tamper_cases": dict(tstats), "crash_cases": dict(cstats), "log_cases": n_log, "log_puts_refused": refused_seen,
+        "input_distribution": {"store_steps": dict(steps), "tamper_cases": dict(tstats), "crash_cases": dict(cstats), "concurrent_rounds": race_rounds, "concurrent_totals": dict(race_stats), "log_cases": n_log, "log_puts_refused": refused_seen,
                                "option_sets": [o[0] for o in OPTION_SETS], "histories_outside_model": outside, "outside_reasons": dict(outside_reasons)},
         "traces_validated_against_impl": len(results),
-        "disagreements_impl_vs_model": len(corr_bad), "disagreements_impl_vs_spec": len(prop_bad) + len(log_bad) + len(crash_bad),
+        "disagreements_impl_vs_model": len(corr_bad), "disagreements_impl_vs_spec": len(prop_bad) + len(log_bad) + len(crash_bad) + len(race_bad),
         "corpus_cases": len(corpus),
         "trusted_base": [
             "Coq 8.16.1 kernel (coqc, full .vo build); vm_compute only in the non-vacuity examples",
@@ -328,11 +417,15 @@ def run(chk):
     })
     chk.assumptions = ["H (SHA3-256) is an arbitrary function returning 32 bytes; the entry-tamper theorems assume it separates the entries involved (explicit hypothesis hash_separates)",
                        "no setsum collision between different files of one history (checked per step)",
-                       "single-stepped execution; crash points are covered by the oracle on real runs only (the model has no crash step; C02 owns crash-safety)",
+                       "a manifest transaction [snapshot the tree; record I/O/D; write the edit; install the version] is atomic in the model (I is read at the commit point); validated against real racing threads by the concurrent stage",
+                       "single-stepped execution in the lock-step histories; crash points are covered by the oracle on real runs only (the model has no crash step; C02 owns crash-safety)",
                        "the collector is an arbitrary function of the merged input (C05 says which)"]
     if mach_bad:
         raise RuntimeError("check machinery failed: %s" % json.dumps(mach_bad[0]["problem"])[:500])
-    if prop_bad or log_bad or crash_bad:
+    if prop_bad or log_bad or crash_bad or race_bad:
+        for i, b in enumerate(race_bad[:2]):
+            # a race cannot be replayed: the file carries the recorded manifest history and listing
+            chk.violation("c04_race_%d.json" % i, dict(b, kind="property", replay_cmd="./bin/check C04 --replay <this file>  (re-audits the recorded history)"))
         for i, b in enumerate(crash_bad[:2]):
             chk.violation("c04_crash_%d.json" % i, dict(b, kind="property", replay_cmd="./bin/check C04 --replay <this file>"))
         for i, b in enumerate(prop_bad[:3]):
@@ -347,13 +440,18 @@ def run(chk):
 
 def replay(path):
     obj = json.load(open(path))
-    print(json.dumps({k: obj[k] for k in obj if k != "history"}, indent=1)[:4000])
+    print(json.dumps({k: obj[k] for k in obj if k not in ("history", "race_lines")}, indent=1)[:4000])
     chk = vlib.Check("C04", "quick", 1)
     rc, out = vlib.sh(["python3", os.path.join(vlib.VERIF, "tools", "constants.py"), "Setsum", "Books", "--json"])
     consts = json.loads(out.strip().splitlines()[-1])
     L.PRIMES = consts["Setsum"]["SETSUM_PRIMES"]
     okm, outm, mx = vlib.ocaml_build("books", "mx_books")
     okh, outh, (c04_exe,) = vlib.cargo_build(["c04"])
+    if obj.get("name") == "race":
+        pr, st = RC.audit(obj["race_lines"], mx)
+        print("re-audit of the recorded history:", st)
+        print(json.dumps(pr[:10], indent=1)[:4000])
+        return 1 if pr else 0
     if obj.get("name") == "crash":
         pr, st = C.crash_case(c04_exe, obj["options"], obj["problem"]["replay"]["seed"], "replay")
         print("now:", json.dumps(pr, indent=1)[:3000], st)
